@@ -61,8 +61,14 @@ Coords(n) == [i \in 1..n |-> "c" \o ToString(i - 1)]
 \* yvals[i]: what the generator yields as its i-th value: "t" = a value spelling out the call (\o "#i"), or one of the
 \* literals "None", "0", "''", "False" (a generator may legitimately produce None / falsy values, e.g. a bare `yield`)
 Terms(m) == [i \in 1..m |-> "t"]
-MkNodeY(nout, yields, ins, st, v, yv) == [nout |-> nout, yields |-> yields, yvals |-> yv, coords |-> Coords(nout), inputs |-> ins,
-                                          args |-> Args(st, Len(ins), v), kwargs |-> Kwargs(st, v)]
+\* onames / odecl: <<>> for a node built with fluent.Node (which names its outputs itself).  A HAND-BUILT multi-output node
+\* (graph.Node with a (func, args, kwargs) payload) names its outputs freely: onames lists them in key-sorted order -- the order
+\* cascade documents for binding ("Assumes key-sorted corresponds to func output order": the i-th yielded value belongs to
+\* onames[i]) -- and odecl is the order in which the author wrote them in Node(outputs = [...]) (positions in onames)
+MkNodeH(nout, yields, ins, st, v, yv, onames, odecl) ==
+  [nout |-> nout, yields |-> yields, yvals |-> yv, coords |-> Coords(nout), inputs |-> ins,
+   args |-> Args(st, Len(ins), v), kwargs |-> Kwargs(st, v), onames |-> onames, odecl |-> odecl]
+MkNodeY(nout, yields, ins, st, v, yv) == MkNodeH(nout, yields, ins, st, v, yv, <<>>, <<>>)
 MkNodeV(nout, yields, ins, st, v) == MkNodeY(nout, yields, ins, st, v, Terms(yields))
 MkNode(nout, yields, ins, st) == MkNodeV(nout, yields, ins, st, IntA(7))
 
@@ -99,6 +105,20 @@ FalsyCases ==
      \cup UNION {{GenGraphY(N, N + 1, fed, <<>>, [i \in 1..(N + 1) |-> IF i = N + 1 THEN l ELSE "t"]) : fed \in BOOLEAN, l \in Literals} : N \in GenOuts}
      \cup UNION {{GenGraphY(N, N + 1, FALSE, <<>>, [i \in 1..(N + 1) |-> l]) : l \in Literals} : N \in GenOuts}
      \cup UNION {{GenGraphY(N, N - 1, FALSE, <<>>, [i \in 1..(N - 1) |-> l]) : l \in Literals} : N \in GenOuts}
+
+\* (4) hand-built generators whose output names differ in length / are un-padded numbers / differ in case, declared in sorted,
+\*     reversed or rotated order; written here in key-sorted (code point) order
+SortedNameSets == {<<"aa", "b", "c">>, <<"10", "9">>, <<"0", "1", "10", "2">>, <<"a", "ab", "b">>, <<"B", "a">>, <<"1", "10", "100", "11", "2">>}
+Decls(n) == {[i \in 1..n |-> i], [i \in 1..n |-> n + 1 - i], [i \in 1..n |-> (i % n) + 1]}
+HandGraph(names, decl, M, fed, cons) ==
+  LET N == Len(names)
+      g == IF fed THEN 2 ELSE 1
+      pre == IF fed THEN <<MkNode(1, 1, <<>>, 4)>> ELSE <<>>
+      gen == MkNodeH(N, M, IF fed THEN <<<<1, 0>>>> ELSE <<>>, 4, IntA(7), Terms(M), names, decl)
+  IN [nodes |-> pre \o <<gen>> \o (IF cons = <<>> THEN <<>> ELSE <<MkNode(1, 1, [k \in DOMAIN cons |-> <<g, cons[k]>>], 3)>>)]
+HandCases == UNION {{HandGraph(nm, d, Len(nm), fed, cons) : d \in Decls(Len(nm)), fed \in BOOLEAN,
+                                                           cons \in {<<>>} \cup {<<i>> : i \in 0..(Len(nm) - 1)} \cup {<<Len(nm) - 1, 0>>}} : nm \in SortedNameSets}
+        \cup UNION {{HandGraph(nm, d, M, FALSE, <<>>) : d \in Decls(Len(nm)), M \in {Len(nm) - 1, Len(nm) + 1}} : nm \in SortedNameSets}
 
 \* ======================================================================== reference semantics
 RECURSIVE JoinSeq(_, _)
@@ -139,7 +159,8 @@ Reached(c, j) == \A i \in Anc(c, ParentsOf(c, j), Len(c.nodes)) : ~Mismatch(c, i
 Post(c, r) ==
   LET n == Len(c.nodes)
       nm(j) == r.names[j]
-      OutName(j, o) == r.declared[j][o + 1]
+      \* the output that the o-th yielded value belongs to: fluent nodes: the o-th declared; hand-built: the o-th key-sorted
+      OutName(j, o) == IF c.nodes[j].onames # <<>> THEN c.nodes[j].onames[o + 1] ELSE r.declared[j][o + 1]
       task(j) == CHOOSE t \in SetOf(r.tasks) : t.name = nm(j)
       expEdges == {<<nm(c.nodes[j].inputs[k][1]), OutName(c.nodes[j].inputs[k][1], c.nodes[j].inputs[k][2]), nm(j),
                      PosOfInput(c.nodes[j], k) - 1, "">> : <<j, k>> \in {p \in (1..n) \X (1..MaxIn) : p[2] <= Len(c.nodes[p[1]].inputs)}}
@@ -167,7 +188,7 @@ Post(c, r) ==
         THEN {} ELSE {"callable_called_twice"})
   \cup (IF \A j \in good : DS(j) = {<<nm(j), OutName(j, o), OutStr(c, j, o)>> : o \in 0..(c.nodes[j].nout - 1)}
         THEN {} ELSE {"value_stored_under_wrong_output"})
-  \cup (IF \A j \in {j \in good : c.nodes[j].nout > 1} :
+  \cup (IF \A j \in {j \in good : c.nodes[j].nout > 1 /\ c.nodes[j].onames = <<>>} :
              /\ Len(r.coords[j]) = c.nodes[j].nout
              /\ \A i \in 1..c.nodes[j].nout : /\ r.coords[j][i][1] = c.nodes[j].coords[i]
                                               /\ <<nm(j), r.coords[j][i][2], OutStr(c, j, i - 1)>> \in DS(j)
@@ -177,7 +198,7 @@ Post(c, r) ==
   \cup (IF \A j \in good : nm(j) \notin SetOf(r.failures) THEN {} ELSE {"task_failure_without_cause"})
 
 \* ======================================================================== the two TLC passes
-Generate == JsonSerialize(IOEnv.CASES_FILE, SetToSeq(BindCases) \o SetToSeq(OutCases) \o SetToSeq(FalsyCases))
+Generate == JsonSerialize(IOEnv.CASES_FILE, SetToSeq(BindCases) \o SetToSeq(OutCases) \o SetToSeq(FalsyCases) \o SetToSeq(HandCases))
 Judge ==
   LET cs == JsonDeserialize(IOEnv.CASES_FILE)
       rs == JsonDeserialize(IOEnv.RESULTS_FILE)
